@@ -18,7 +18,8 @@ sample(...) of each are taken.  Modes:
   (not realisable); integer and float arrays; allow_rescaling False and True.  Whether the greedy construction matched
   is read from the public attribute matching_sequences after the first sample.
 * "model": sample() from u, w alone; max_hye_size in {None, 2, 3, N}; exact_dyadic_sampling True/False; u scaled so that
-  the expected number of hyperedges is tiny, moderate or large.
+  the expected number of hyperedges (brute-force sum of lambda_e/kappa_e) is about 0.01, 4, 12 or 40; plus graphs on
+  three nodes with about one expected edge.
 * "deg only" / "dim only": one of the two sequences given, the other drawn from the model (the docstring of sample()
   allows it; only the clauses about every produced hypergraph, the size counts (dim only) and the seed apply).
 
@@ -50,6 +51,7 @@ Known limits
 import collections
 import itertools
 import logging
+import math
 import multiprocessing
 import os
 import random
@@ -83,6 +85,18 @@ def _params(np, cfg, N):
     w = np.triu(w) + np.triu(w, 1).T
     if cfg.get("w") == "diagonal":
         w = np.diag(np.diag(w))
+    if cfg.get("target") is not None:
+        # rescale u so that the model's expected number of hyperedges (brute force over all subsets up to the maximum
+        # size: sum of lambda_e / kappa_e) is about cfg["target"]
+        D = cfg.get("max_hye_size") or N
+        G = u @ w @ u.T
+        expected = 0.0
+        for d in range(2, D + 1):
+            kappa = math.comb(N - 2, d - 2) * d * (d - 1) / 2
+            for e in itertools.combinations(range(N), d):
+                expected += sum(G[i, j] for i, j in itertools.combinations(e, 2)) / kappa
+        if expected > 0:
+            u = u * math.sqrt(cfg["target"] / expected)
     return u, w
 
 
@@ -325,19 +339,19 @@ def _plan(quick, seed):
     for j in range(24 if quick else 120):
         N = R.randint(3, 8) if j >= 2 else 2
         base = dict(mode="model", N=N, K=R.randint(1, 3), w=R.choice(["full", "diagonal"]),
-                    scale=(0.001, 2.5, 4.0, 8.0)[j % 4], max_hye_size=(None, 2, min(3, N), N)[(j // 4) % 4],
+                    target=(0.01, 4, 12, 40)[j % 4], max_hye_size=(None, 2, min(3, N), N)[(j // 4) % 4],
                     exact=R.random() < 0.5)
         emit(base, STEPS, 1 if quick else 2)
     # graphs on three nodes with about one expected edge: the drawn configuration often has exactly one hyperedge
     for j in range(2 if quick else 6):
-        emit(dict(mode="model", N=3, K=1, w="full", scale=1.6, max_hye_size=2, exact=False), [(0, 0)], 12)
+        emit(dict(mode="model", N=3, K=1, w="full", target=1.0, max_hye_size=2, exact=False), [(0, 0)], 12)
     # ---- one sequence given
     for j in range(12 if quick else 60):
         N = R.randint(3, 8)
         E = R.randint(2, 7)
         dim = collections.Counter(R.randint(2, min(N, 5)) for _ in range(E))
         deg = [R.randint(0, 4) for _ in range(N)]
-        base = dict(N=N, K=R.randint(1, 3), w=R.choice(["full", "diagonal"]), scale=R.choice([1.0, 2.5]),
+        base = dict(N=N, K=R.randint(1, 3), w=R.choice(["full", "diagonal"]), target=R.choice([6, 20]),
                     exact=bool(j % 2), allow_rescaling=bool((j // 2) % 2))
         steps = [STEPS[(j + k) % 9] for k in range(3)]
         emit(dict(base, mode="deg only", deg=deg), steps, 1)
